@@ -392,6 +392,80 @@ def r16_6(ctx):
     ctx.floor("R16.6", n, 5, "SearchContext accessors")
 
 
+def r16_7(ctx):
+    """The section renderers of FetchAtt._single_section hand on header *selection* only where the client asked for one:
+    `HEADER.FIELDS (..)` / `HEADER.FIELDS.NOT (..)` pass the client's list (`section[1]`) with skip=False / skip=True; HEADER
+    and MIME render every header field, as BODY[] and RFC822.SIZE do.  A fixed list slipped into one of them (a header
+    `that is ours`) makes BODY[HEADER] + BODY[TEXT] differ from BODY[] and its length from RFC822.SIZE for the messages that
+    carry the field."""
+    p = ctx.p
+    fi = p.func("fetch.FetchAtt._single_section")
+    ctx.analysed(fi)
+    par = parmap_of(fi)
+    calls = [c for c in calls_in(fi.node) if call_name(c) == "msg_headers_as_bytes"]
+    ctx.floor("R16.7", len(calls), 4, "header renderings in _single_section")
+    seen_skip = set()
+    for c in calls:
+        hs = c.args[1] if len(c.args) > 1 else kwarg(c, "headers")
+        sk = c.args[2] if len(c.args) > 2 else kwarg(c, "skip")
+        # label of the enclosing `case "...":`
+        label = None
+        cur = c
+        while cur in par:
+            cur = par[cur]
+            if isinstance(cur, ast.match_case) and isinstance(cur.pattern, ast.MatchValue) and isinstance(cur.pattern.value, ast.Constant):
+                label = cur.pattern.value.value
+                break
+        if hs is None or (isinstance(hs, ast.Constant) and hs.value is None):
+            if label in ("HEADER.FIELDS", "HEADER.FIELDS.NOT"):
+                ctx.bad("R16.7", fi.module, fi.qual, norm(c, 80), f"{label} renders without the client's field list", c.lineno)
+            else:
+                ctx.ok("R16.7", where(fi), f"{label or 'section'}: all header fields", nontrivial=False)
+            continue
+        src = hs
+        if isinstance(src, ast.Name):
+            d = [s for s in body_walk(fi.node) if isinstance(s, ast.Assign) and len(s.targets) == 1 and isinstance(s.targets[0], ast.Name) and s.targets[0].id == src.id]
+            # one definition per case arm: take those in the same arm as the call
+            same = [s for s in d if _same_block(par, s, c)]
+            src = (same or d or [None])[0]
+            src = src.value if src is not None else hs
+        from_client = "section[1]" in norm(src)
+        skv = True if sk is None else (sk.value if isinstance(sk, ast.Constant) and isinstance(sk.value, bool) else None)
+        if not from_client:
+            ctx.bad("R16.7", fi.module, fi.qual, norm(c, 90), f"`{label or 'a section'}` is rendered with a header selection (`{norm(hs, 40)}`) that is not the client's list: the header block differs from the one inside BODY[] / counted by RFC822.SIZE", c.lineno)
+            continue
+        if skv is None:
+            ctx.bad("R16.7", fi.module, fi.qual, norm(c, 90), "skip= is not a constant: which of HEADER.FIELDS / HEADER.FIELDS.NOT this renders cannot be read off", c.lineno)
+            continue
+        want = {"HEADER.FIELDS": False, "HEADER.FIELDS.NOT": True}.get(label)
+        if want is not None and want != skv:
+            ctx.bad("R16.7", fi.module, fi.qual, norm(c, 90), f"{label} renders with skip={skv}: the fields asked for are the ones left out", c.lineno)
+            continue
+        seen_skip.add(skv)
+        ctx.ok("R16.7", where(fi), f"{label or 'section'}: client's list, skip={skv}")
+    if seen_skip != {True, False}:
+        ctx.bad("R16.7", fi.module, fi.qual, "HEADER.FIELDS / HEADER.FIELDS.NOT", "the two field-list sections no longer render one with skip=False and one with skip=True", fi.node.lineno)
+
+
+def parmap_of(fi):
+    from .common import parmap
+
+    return parmap(fi)
+
+
+def _same_block(par, a, b) -> bool:
+    """a is an earlier statement of a block that (transitively) contains b"""
+    cur = b
+    while cur in par:
+        up = par[cur]
+        for fld in ("body", "orelse"):
+            lst = getattr(up, fld, None)
+            if isinstance(lst, list) and cur in lst and a in lst:
+                return True
+        cur = up
+    return False
+
+
 def run(ctx):
     ctx.do(r16_1)
     ctx.do(r16_2)
@@ -401,6 +475,7 @@ def run(ctx):
     ctx.do(r16_4c)
     ctx.do(r16_5)
     ctx.do(r16_6)
+    ctx.do(r16_7)
     from . import c08
     ctx.do(c08.r8_5b)
     from . import c10
